@@ -221,6 +221,7 @@ def harness_for(cfg):
                                         name=(None if kd.get("anon") else nm), addr=addr, sparse=kd["sparse"])
             # differential: the same call on a map that never saw the refused calls must have the same outcome
             ref_out = outcome(call, reference())
+            obj = None
             try:
                 if kd["k"] == "res":
                     obj = pool[n]
@@ -244,6 +245,13 @@ def harness_for(cfg):
                 same(before, snapshot(), "query results")
                 E.prove(mm.align_to(0) == cur_before, "failed call moved the placement cursor")
                 E.prove(ref_out[0] == "raise", "a call is refused only because of an earlier REFUSED call (half-applied state)")
+                if kd["k"] == "win" and obj is not None:
+                    # the map that was OFFERED as a window is untouched as well: still an ordinary, extensible map
+                    try:
+                        obj.add_resource(Res(), name=("still-mine",), size=1)
+                    except ValueError as e_:
+                        # (a window map that is too small for one aligned resource refuses it for lack of space: fine)
+                        E.prove("frozen" not in str(e_), "a refused add_window() left the offered map frozen")
                 continue
             E.observe("ok", start, end)
             got = ("ok", start, end) + ((ratio,) if kd["k"] == "win" else ())
